@@ -4,12 +4,15 @@ import (
 	"bytes"
 	"fmt"
 	"io"
+	"strings"
 	"testing"
 
 	"github.com/ipld/go-ipld-prime/codec/dagcbor"
 	"github.com/ipld/go-ipld-prime/codec/dagjson"
 	"github.com/ipld/go-ipld-prime/datamodel"
 	"github.com/ipld/go-ipld-prime/node/basicnode"
+	"github.com/ipld/go-ipld-prime/node/bindnode"
+	"github.com/ipld/go-ipld-prime/node/gendemo"
 	"github.com/ipld/go-ipld-prime/traversal"
 	"github.com/ipld/go-ipld-prime/traversal/selector"
 	"pgregory.net/rapid"
@@ -19,6 +22,7 @@ import (
 	"verif/refcbor"
 	"verif/refsel"
 	"verif/selx"
+	"verif/tschema"
 	"verif/val"
 )
 
@@ -44,9 +48,48 @@ type tracked struct {
 	snap val.V
 	from string
 	nb   datamodel.NodeBuilder // the builder that produced it, if any
+	// typed: the builder only accepts values of one schema type; regen gives another such value
+	regen func(a, b int) val.V
+	// typedish: the node is, or may share structure with, a typed node (readers then tolerate typed-map key
+	// nodes; transforms replace a position only by what is already there)
+	typedish bool
 }
 
-var c11OpKinds = []string{"build", "build", "decode", "copy", "embed", "bytesreader", "subset", "transform", "reread", "partial", "largebytes", "encode", "reset", "assignroot", "walk"}
+// typed engines in the histories: struct Msg3 and map {String:Msg3} as checked-in generated code
+// (node/gendemo) and as a bindnode binding of the same schema.
+var c11TypedSchema = tschema.Schema{Types: []tschema.TypeSpec{
+	{Name: "Msg3", Kind: "struct", Repr: "map", Fields: []tschema.FieldSpec{{Name: "whee", Type: "Int"}, {Name: "woot", Type: "Int"}, {Name: "waga", Type: "Int"}}},
+	{Name: "MapMsg3", Kind: "map", Elem: "Msg3"},
+}}
+
+var c11TypedProtos = func() map[string]datamodel.NodePrototype {
+	ts, err := c11TypedSchema.Build()
+	if err != nil {
+		panic(err)
+	}
+	bm, bs := bindnode.Prototype(nil, ts.TypeByName("MapMsg3")), bindnode.Prototype(nil, ts.TypeByName("Msg3"))
+	return map[string]datamodel.NodePrototype{
+		"gendemo.map": gendemo.Type.Map__String__Msg3, "gendemo.map.repr": gendemo.Type.Map__String__Msg3__Repr,
+		"gendemo.struct": gendemo.Type.Msg3, "gendemo.struct.repr": gendemo.Type.Msg3__Repr,
+		"bindnode.map": bm, "bindnode.map.repr": bm.Representation(),
+		"bindnode.struct": bs, "bindnode.struct.repr": bs.Representation(),
+	}
+}()
+
+var c11TypedNames = []string{"gendemo.map", "gendemo.map.repr", "gendemo.struct", "gendemo.struct.repr", "bindnode.map", "bindnode.map.repr", "bindnode.struct", "bindnode.struct.repr"}
+
+func c11TypedValue(name string, a, b int) val.V {
+	if strings.Contains(name, "struct") {
+		return msg3(int64(a), int64(b), int64(a*b))
+	}
+	v := val.V{K: val.Map, Ents: []val.Ent{}}
+	for i := 0; i < a%4; i++ {
+		v.Ents = append(v.Ents, val.Ent{K: fmt.Sprintf("k%d", (i*7+b)%10), V: msg3(int64(a+i), int64(b), int64(i))})
+	}
+	return v
+}
+
+var c11OpKinds = []string{"build", "build", "buildtyped", "decode", "copy", "embed", "bytesreader", "subset", "transform", "reread", "partial", "largebytes", "encode", "reset", "assignroot", "walk"}
 
 func c11CheckAll(ts []tracked, after string) error {
 	for i, t := range ts {
@@ -72,13 +115,14 @@ func c11CheckAll(ts []tracked, after string) error {
 
 func c11Check(c C11Case, rec *evid.Rec) error {
 	var ts []tracked
+	curTypedish := false // whether nodes tracked by the current operation derive from a typed node
 	sharing, mutatingAfterSharing := false, false
 	track := func(n datamodel.Node, from string, nb datamodel.NodeBuilder) error {
 		v, err := nodes.Read(n)
 		if err != nil {
 			return fmt.Errorf("node produced by %s unreadable: %v", from, err)
 		}
-		ts = append(ts, tracked{n: n, snap: v, from: from, nb: nb})
+		ts = append(ts, tracked{n: n, snap: v, from: from, nb: nb, typedish: curTypedish})
 		return nil
 	}
 	for i, op := range c.Ops {
@@ -88,7 +132,8 @@ func c11Check(c C11Case, rec *evid.Rec) error {
 			tgt = &ts[op.Target%len(ts)]
 		}
 		kind := op.Kind
-		if tgt == nil && kind != "build" && kind != "decode" && kind != "bytesreader" {
+		curTypedish = kind == "buildtyped" || (tgt != nil && tgt.typedish && kind != "build" && kind != "decode" && kind != "bytesreader")
+		if tgt == nil && kind != "build" && kind != "buildtyped" && kind != "decode" && kind != "bytesreader" {
 			kind = "build"
 		}
 		err := evid.Guard(where, func() error {
@@ -100,6 +145,18 @@ func c11Check(c C11Case, rec *evid.Rec) error {
 					return fmt.Errorf("assemble: %w", err)
 				}
 				return track(nb.Build(), "build/"+op.Impl, nb)
+			case "buildtyped":
+				name := c11TypedNames[op.A%len(c11TypedNames)]
+				v := c11TypedValue(name, op.B, op.A)
+				nb := c11TypedProtos[name].NewBuilder()
+				if err := nodes.Assemble(nb, v, nodes.NewProg(op.Prog), 0); err != nil {
+					return fmt.Errorf("assemble %s: %w", name, err)
+				}
+				if err := track(nb.Build(), "build/"+name, nb); err != nil {
+					return err
+				}
+				ts[len(ts)-1].regen = func(a, b int) val.V { return c11TypedValue(name, a, b) }
+				return nil
 			case "decode":
 				b, err := refcbor.Encode(op.V)
 				if err != nil {
@@ -250,7 +307,10 @@ func c11Check(c C11Case, rec *evid.Rec) error {
 				if len(path) == 0 {
 					return nil
 				}
-				out, err := traversal.FocusedTransform(tgt.n, mkPath(path), func(traversal.Progress, datamodel.Node) (datamodel.Node, error) {
+				out, err := traversal.FocusedTransform(tgt.n, mkPath(path), func(_ traversal.Progress, prev datamodel.Node) (datamodel.Node, error) {
+					if tgt.typedish {
+						return prev, nil // a typed position only takes values of its type
+					}
 					return nodes.BuildDefault(op.V)
 				}, false)
 				if err != nil {
@@ -259,7 +319,9 @@ func c11Check(c C11Case, rec *evid.Rec) error {
 				sharing, mutatingAfterSharing = true, true
 				return track(out, "transform", nil)
 			case "reread":
-				_, err := nodes.Full.Read(tgt.n)
+				rd := nodes.Full
+				rd.LenientKeyNode = tgt.typedish
+				_, err := rd.Read(tgt.n)
 				return err
 			case "partial":
 				switch tgt.n.Kind() {
@@ -339,7 +401,9 @@ func c11Check(c C11Case, rec *evid.Rec) error {
 				}
 				tgt.nb.Reset()
 				v2 := op.V
-				if nodes.Impl(op.Impl) != nodes.BasicAny || true {
+				if tgt.regen != nil {
+					v2 = tgt.regen(op.A, op.B)
+				} else if nodes.Impl(op.Impl) != nodes.BasicAny || true {
 					// a kind-specific builder can only rebuild its own kind; the tracked impl is unknown here
 					if v2.K != tgt.snap.K {
 						v2 = tgt.snap
@@ -355,9 +419,13 @@ func c11Check(c C11Case, rec *evid.Rec) error {
 					return fmt.Errorf("assemble after Reset: %w", err)
 				}
 				mutatingAfterSharing = true
-				nb := tgt.nb
+				nb, regen := tgt.nb, tgt.regen
 				tgt.nb = nil
-				return track(nb.Build(), "reset-reuse", nb)
+				if err := track(nb.Build(), "reset-reuse", nb); err != nil {
+					return err
+				}
+				ts[len(ts)-1].regen = regen
+				return nil
 			case "assignroot":
 				nb := nodes.ProtoFor(nodes.Impl(op.Impl), tgt.snap.K).NewBuilder()
 				if err := nb.AssignNode(tgt.n); err != nil {
@@ -404,7 +472,7 @@ var _ = selector.Matcher{}
 
 var c11Part = evid.Part[C11Case]{
 	Prop: "C11", Name: "histories", Quick: 1500, Thorough: 150000,
-	Rule: "history of ≤30 operations over a table of tracked nodes: producers = builders (all implementations and call programs), decoders (input buffer overwritten afterwards), reader-backed bytes nodes, subset and plain selector matches, visited children of walks, FocusedTransform results, Copy targets, containers embedding a tracked node followed by more siblings, root AssignNode followed by Reset and reuse, Reset and reuse of the producing builder; other actions = full / partial / repeated reads, AsLargeBytes with interleaved readers and seeks, encoding; after EVERY operation every tracked node is read twice and must equal its snapshot; non-trivial = ≥3 operations including a structure-sharing one followed by a potentially mutating one; distinct by history",
+	Rule: "history of ≤30 operations over a table of tracked nodes: producers = builders (all implementations and call programs; typed struct / typed-map builders of the generated code in node/gendemo and of bindnode, at type and representation level), decoders (input buffer overwritten afterwards), reader-backed bytes nodes, subset and plain selector matches, visited children of walks, FocusedTransform results, Copy targets, containers embedding a tracked node followed by more siblings, root AssignNode followed by Reset and reuse, Reset and reuse of the producing builder; other actions = full / partial / repeated reads, AsLargeBytes with interleaved readers and seeks, encoding; after EVERY operation every tracked node is read twice and must equal its snapshot; non-trivial = ≥3 operations including a structure-sharing one followed by a potentially mutating one; distinct by history",
 	Gen: func(t *rapid.T) C11Case {
 		var c C11Case
 		n := rapid.IntRange(1, 30).Draw(t, "nops")
